@@ -1753,7 +1753,7 @@ package goatlang
 //@   ensures#len len(m.data) == old(len(m.data)) + ite(old(haskey(m.data, string(as(k.value, stringT)))), 0, 1)
 //@   ensures#W1 smW1(m)
 //@   ensures#W2 smW2(m)
-//@   ensures#same m.data == old(m.data) && m.valueType == old(m.valueType) 
+//@   ensures#same m.data == old(m.data) && m.valueType == old(m.valueType)
 //@
 //@ func (*stringMap).Delete
 //@   property C10
@@ -1928,8 +1928,10 @@ package goatlang
 //@   modifies fields(c) elems(c.scope)
 //@   allocates elems(int)
 //@   nopanic
-//@   ensures len(c.scope) == old(len(c.scope)) + 1 && c.scope[len(c.scope)-1] == len(c.Locals.data) && c.Locals == old(c.Locals)
+//@   ensures len(c.scope) == old(len(c.scope)) + 1 && c.scope[len(c.scope)-1] == len(c.Locals.data) && c.Locals == old(c.Locals) && c.Globals == old(c.Globals) && c.Imports == old(c.Imports) && c.Optimize == old(c.Optimize) && len(c.Returns) == old(len(c.Returns))
 //@   ensures forall j int :: 0 <= j && j < old(len(c.scope)) ==> c.scope[j] == old(c.scope[j])
+//@   ensures arr(c.scope) == old(arr(c.scope)) || isfresh(arr(c.scope))
+//@   ensures arr(c.Returns) == old(arr(c.Returns))
 //@
 //@ func (*compiler).Shadow
 //@   property C08
@@ -1948,7 +1950,150 @@ package goatlang
 //@   requires 0 <= c.scope[len(c.scope)-1] && c.scope[len(c.scope)-1] <= len(c.Locals.data)
 //@   modifies fields(c) elems(c.Locals.indexToKey) M$Str$Int$dom M$Str$Int$val M$Str$Int$card
 //@   nopanic
-//@   ensures len(c.scope) == old(len(c.scope)) - 1 && c.Locals == old(c.Locals)
+//@   ensures len(c.scope) == old(len(c.scope)) - 1 && c.Locals == old(c.Locals) && c.Globals == old(c.Globals) && len(c.Locals.data) == old(len(c.Locals.data)) && len(c.Locals.indexToKey) == old(len(c.Locals.indexToKey)) && c.Locals.cap == old(c.Locals.cap) && c.Locals.keyToIndex == old(c.Locals.keyToIndex) && c.Imports == old(c.Imports) && c.Optimize == old(c.Optimize) && len(c.Returns) == old(len(c.Returns))
+//@   ensures forall j int :: 0 <= j && j < len(c.scope) ==> c.scope[j] == old(c.scope[j])
+//@   ensures arr(c.scope) == old(arr(c.scope)) && arr(c.Returns) == old(arr(c.Returns))
 //@   callsite#count (*lookup).Drop: arg_t == len(c.Locals.data) - old(c.scope[len(c.scope)-1])
 //@ func (*compiler).isLocal
 //@   inline
+
+// ---------------------------------------------------------------------------------------------
+// Layer C: compile(). The function-level contract is the induction hypothesis for the recursive
+// calls (trusted here: it is not proved case by case yet); the case contracts below state the
+// jump layout of each control-flow construct (C06) in terms of the lengths of the segments the
+// case itself assembles, and that every segment inside a jump span went through optimize()
+// before its length was used (span stability, C02/C06/C07).
+// ---------------------------------------------------------------------------------------------
+//@ ghost optimized(s []instruction) bool
+//@
+//@ ghost tokArr(a int) bool
+//@ axiom TOKARR
+//@   def forall a int :: tokArr(a) ==> !isfresh(a)
+//@ spec tokensKept() bool
+//@   def forall a int :: tokArr(a) ==> same(elemsAt(*token, a), old(elemsAt(*token, a)))
+//@ spec wfL(l *lookup) bool
+//@   def l != nil && l.keyToIndex != nil && len(l.indexToKey) == len(l.data) && l.cap >= len(l.data)
+//@ spec wfC(c *compiler) bool
+//@   def c != nil && wfL(c.Locals) && wfL(c.Globals) && c.Locals != c.Globals && c.Imports != nil && !tokArr(arr(c.scope)) && !tokArr(arr(c.Returns)) && (forall j int :: 0 <= j && j < len(c.scope) ==> 0 <= c.scope[j] && c.scope[j] <= len(c.Locals.data))
+//@ spec keepsC(c *compiler) bool
+//@   def c.Locals == old(c.Locals) && c.Globals == old(c.Globals) && len(c.scope) == old(len(c.scope)) && len(c.Locals.data) >= old(len(c.Locals.data)) && len(c.Returns) == old(len(c.Returns)) && c.Optimize == old(c.Optimize) && (forall j int :: 0 <= j && j < len(c.scope) ==> c.scope[j] == old(c.scope[j]))
+//@
+//@ func (*compiler).compile
+//@   property C06
+//@   trusted
+//@   requires#c c != nil && c.Imports != nil && c.Locals != c.Globals && !tokArr(arr(c.scope)) && !tokArr(arr(c.Returns))
+//@   requires#locals wfL(c.Locals)
+//@   requires#globals wfL(c.Globals)
+//@   requires#scope forall j int :: 0 <= j && j < len(c.scope) ==> 0 <= c.scope[j] && c.scope[j] <= len(c.Locals.data)
+//@   requires#tok tok != nil
+//@   modifies allbut(A$instruction,H$token)
+//@   allocates elems(instruction) elems(Value) elems(string) elems(int) lookup token
+//@   ensures len(result) == 0 || isfresh(arr(result))
+//@   ensures wfC(c) && keepsC(c) && tokensKept()
+//@ func (*compiler).compileAll
+//@   property C06
+//@   trusted
+//@   requires wfC(c)
+//@   modifies allbut(A$instruction,H$token)
+//@   allocates elems(instruction) elems(Value) elems(string) elems(int) lookup token
+//@   ensures len(result) == 0 || isfresh(arr(result))
+//@   ensures wfC(c) && keepsC(c) && tokensKept()
+//@ func (*compiler).optimize
+//@   property C06 C02
+//@   requires c != nil
+//@   allocates elems(instruction)
+//@   nopanic
+//@   ensures#off !c.Optimize ==> result == in
+//@   trusted_ensures c.Optimize ==> optimized(result)
+//@   trusted_ensures len(result) == 0 || isfresh(arr(result)) || result == in
+//@ func (*compiler).doOptimize
+//@   property C02
+//@   trusted
+//@   nopanic
+//@   allocates elems(instruction)
+//@
+//@ func (*compiler).compile case "if"
+//@   property C06 C02 C07
+//@   axioms TOKARR
+//@   requires wfC(c) && tok != nil && len(tok.Tokens) >= 3 && tokArr(arr(tok.Tokens)) && (forall j int :: 0 <= j && j < len(tok.Tokens) ==> tok.Tokens[j] != nil)
+//@   ensures#wf wfC(c) && keepsC(c)
+//@   ensures#span c.Optimize ==> optimized(thenI) && (len(elseI) > 0 ==> optimized(elseI))
+//@   ensures#noelse len(elseI) == 0 ==> len(res) >= len(thenI) + 1 && res[len(res)-len(thenI)-1].Code == codeJumpFalse && int(res[len(res)-len(thenI)-1].A) == len(thenI)
+//@ func newPos
+//@   property C20 C06
+//@   trusted
+//@   requires wfL(l)
+//@   modifies fields(l) elems(l.data) elems(l.indexToKey) M$Str$Int$dom M$Str$Int$val M$Str$Int$card
+//@   allocates elems(Value) elems(string)
+//@   nopanic
+//@   ensures wfL(l) && len(l.data) >= old(len(l.data)) && l.keyToIndex == old(l.keyToIndex)
+//@ func (pos).IsZero
+//@   inline
+//@ func (*compiler).compile loop 9999
+//@   property C20
+//@   invariant wfC(c) && keepsC(c)
+
+//@ func (*compiler).compile case "&&"
+//@   property C06 C02 C05
+//@   axioms TOKARR
+//@   requires wfC(c) && tok != nil && len(tok.Tokens) >= 2 && tokArr(arr(tok.Tokens)) && (forall j int :: 0 <= j && j < len(tok.Tokens) ==> tok.Tokens[j] != nil)
+//@   ensures#wf wfC(c) && keepsC(c)
+//@   ensures#span c.Optimize ==> optimized(right)
+//@
+//@ func (*compiler).compile case "lambda"
+//@   property C20
+//@   axioms TOKARR
+//@   requires wfC(c) && tok != nil && len(tok.Tokens) >= 1 && tokArr(arr(tok.Tokens)) && tok.Tokens[0] != nil
+//@   ensures#funcname c.FuncName == old(c.FuncName)
+//@
+//@ func (*compiler).pkgPrefix
+//@   property C20
+//@   trusted
+//@   pure
+//@ func (*compiler).expPrefix
+//@   property C20
+//@   trusted
+//@   pure
+
+//@ func (*compiler).compile case "for"
+//@   property C06 C02 C07
+//@   axioms TOKARR
+//@   requires wfC(c) && tok != nil && len(tok.Tokens) >= 4 && tokArr(arr(tok.Tokens)) && (forall j int :: 0 <= j && j < len(tok.Tokens) ==> tok.Tokens[j] != nil)
+//@   ensures#wf wfC(c) && keepsC(c)
+//@   ensures#span c.Optimize ==> optimized(cond) && optimized(block) && optimized(post)
+//@ func (*compiler).compile case "for" loop 0
+//@   invariant wfC(c) && c.Locals == old(c.Locals) && c.Globals == old(c.Globals) && len(c.scope) == old(len(c.scope)) + 1 && len(c.Locals.data) >= old(len(c.Locals.data)) && len(c.Returns) == old(len(c.Returns)) && c.Optimize == old(c.Optimize)
+//@   invariant forall j int :: 0 <= j && j < old(len(c.scope)) ==> c.scope[j] == old(c.scope[j])
+//@   invariant tokensKept() && (c.Optimize ==> optimized(cond) && optimized(block) && optimized(post))
+//@
+//@ func (*compiler).compile case "range"
+//@   property C06 C02 C07
+//@   axioms TOKARR
+//@   requires wfC(c) && tok != nil && len(tok.Tokens) >= 4 && tokArr(arr(tok.Tokens)) && (forall j int :: 0 <= j && j < len(tok.Tokens) ==> tok.Tokens[j] != nil)
+//@   ensures#wf wfC(c) && keepsC(c)
+//@   ensures#span c.Optimize ==> optimized(block)
+//@ func (*compiler).compile case "range" loop 0
+//@   invariant wfC(c) && c.Locals == old(c.Locals) && c.Globals == old(c.Globals) && len(c.scope) == old(len(c.scope)) + 1 && len(c.Locals.data) >= old(len(c.Locals.data)) && len(c.Returns) == old(len(c.Returns)) && c.Optimize == old(c.Optimize)
+//@   invariant forall j int :: 0 <= j && j < old(len(c.scope)) ==> c.scope[j] == old(c.scope[j])
+//@   invariant tokensKept() && (c.Optimize ==> optimized(block))
+
+//@ func (*compiler).compile case "switch"
+//@   property C06 C02 C07
+//@   axioms TOKARR
+//@   requires wfC(c) && tok != nil && len(tok.Tokens) >= 3 && tokArr(arr(tok.Tokens)) && (forall j int :: 0 <= j && j < len(tok.Tokens) ==> tok.Tokens[j] != nil)
+//@   requires tokArr(arr(tok.Tokens[1].Tokens)) && (forall j int :: 0 <= j && j < len(tok.Tokens[1].Tokens) ==> tok.Tokens[1].Tokens[j] != nil && len(tok.Tokens[1].Tokens[j].Tokens) >= 2 && tokArr(arr(tok.Tokens[1].Tokens[j].Tokens)) && tok.Tokens[1].Tokens[j].Tokens[0] != nil && tok.Tokens[1].Tokens[j].Tokens[1] != nil)
+//@   ensures#wf wfC(c) && keepsC(c)
+//@   ensures#span c.Optimize ==> optimized(defBlock)
+//@   assert#nobreak @10 forall p int :: 0 <= p && p < len(defBlock) ==> defBlock[p].Code != codeBreak
+//@   assert#span @L1.4 c.Optimize ==> optimized(csStmt) && optimized(csBlock)
+//@ func (*compiler).compile case "switch" loop 0
+//@   invariant forall p int :: 0 <= p && p < rangeidx ==> defBlock[p].Code != codeBreak
+//@   invariant wfC(c) && c.Locals == old(c.Locals) && c.Globals == old(c.Globals) && len(c.scope) == old(len(c.scope)) + 2 && len(c.Locals.data) >= old(len(c.Locals.data)) && len(c.Returns) == old(len(c.Returns)) && c.Optimize == old(c.Optimize) && tokensKept() && (c.Optimize ==> optimized(defBlock))
+//@   invariant forall j int :: 0 <= j && j < old(len(c.scope)) ==> c.scope[j] == old(c.scope[j])
+//@ func (*compiler).compile case "switch" loop 1
+//@   invariant wfC(c) && c.Locals == old(c.Locals) && c.Globals == old(c.Globals) && len(c.scope) == old(len(c.scope)) + 1 && len(c.Locals.data) >= old(len(c.Locals.data)) && len(c.Returns) == old(len(c.Returns)) && c.Optimize == old(c.Optimize) && tokensKept() && (c.Optimize ==> optimized(defBlock))
+//@   invariant forall j int :: 0 <= j && j < old(len(c.scope)) ==> c.scope[j] == old(c.scope[j])
+//@   assume i < len(tok.Tokens[1].Tokens) && tok.Tokens[1].Tokens[i] != nil && len(tok.Tokens[1].Tokens[i].Tokens) >= 2 && tok.Tokens[1].Tokens[i].Tokens[0] != nil && tok.Tokens[1].Tokens[i].Tokens[1] != nil
+//@ func (*compiler).compile case "switch" loop 2
+//@   invariant wfC(c) && c.Locals == old(c.Locals) && c.Globals == old(c.Globals) && len(c.scope) == old(len(c.scope)) + 2 && len(c.Locals.data) >= old(len(c.Locals.data)) && len(c.Returns) == old(len(c.Returns)) && c.Optimize == old(c.Optimize) && tokensKept() && (c.Optimize ==> optimized(defBlock) && optimized(csStmt) && optimized(csBlock))
+//@   invariant forall j int :: 0 <= j && j < old(len(c.scope)) ==> c.scope[j] == old(c.scope[j])
